@@ -183,13 +183,23 @@ Proof.
     rewrite lw_run_bytes; cbn; repeat split; lia.
 Qed.
 
-(** The response-buffer middleware around one header and one body write. *)
-Lemma resp_mw_one maxm maxb s body :
-  fst (resp_mw maxm maxb [HWriteHeader s false; HWrite body]) =
-    if body_too_large maxb body then [CError500]
-    else CWriteHeader s :: match body with [] => [] | _ => [CWrite body] end.
+Lemma informational_is s : is_informational s = informational s.
 Proof.
-  unfold resp_mw. cbn [fold_left rw_step new_rw rheader_written rbypass rbuf rstatus rhijacked rout].
+  unfold is_informational, informational.
+  destruct (100 <=? s) eqn:E1, (s <=? 199) eqn:E2, (s <? 200) eqn:E3, (s =? 101) eqn:E4; cbn; try reflexivity; lia.
+Qed.
+
+(** The buffer part shared by the lemmas below: one body write into a fresh
+    buffer whose writer already holds the (final) status [s], then Send. *)
+Lemma resp_mw_body maxm maxb s body pre :
+  let w0 := mkRw (new_buf maxb maxm) s true false false pre in
+  let w := rw_step w0 (HWrite body) in
+  let '(w1, ok) := rw_send w in
+  rev (if ok then rout w1 else CError500 :: rout w1) =
+    rev pre ++ (if body_too_large maxb body then [CError500]
+                else CWriteHeader s :: match body with [] => [] | _ => [CWrite body] end).
+Proof.
+  cbv zeta. cbn [rw_step rbypass rbuf rstatus rheader_written rhijacked rout].
   pose proof (write_spec (new_buf maxb maxm) [] body (wf_new maxb maxm)) as Hw.
   unfold would_overflow in Hw. cbn [max_bytes new_buf] in Hw.
   replace (lenN (@nil byte) + lenN body) with (lenN body) in Hw by (unfold lenN; cbn; lia).
@@ -202,28 +212,68 @@ Proof.
     destruct Hwf as (Hr & Hc & Hd & Hl & Hs).
     pose proof (wf_contents b' ([] ++ body) (conj Hr (conj Hc (conj Hd (conj Hl Hs))))) as Hcont.
     unfold send. rewrite Hd, Hcont. cbn [app].
-    destruct body; reflexivity.
+    destruct body; cbn [rout rev]; rewrite <- ?app_assoc; reflexivity.
 Qed.
 
-(** Only the FIRST WriteHeader counts for the buffered writer: an informational
-    header followed by the final one leaves the informational status in place. *)
-Lemma resp_mw_two_headers maxm maxb s1 s2 body :
-  fst (resp_mw maxm maxb [HWriteHeader s1 false; HWriteHeader s2 false; HWrite body]) =
-  fst (resp_mw maxm maxb [HWriteHeader s1 false; HWrite body]).
-Proof. reflexivity. Qed.
+(** The response-buffer middleware around one final header and one body write. *)
+Lemma resp_mw_one maxm maxb s body :
+  informational s = false ->
+  fst (resp_mw maxm maxb [HWriteHeader s false; HWrite body]) =
+    if body_too_large maxb body then [CError500]
+    else CWriteHeader s :: match body with [] => [] | _ => [CWrite body] end.
+Proof.
+  intros Hi. rewrite <- informational_is in Hi.
+  unfold resp_mw. cbn [fold_left]. unfold new_rw.
+  unfold rw_step at 2. rewrite Hi. cbn [rheader_written rbuf rhijacked rbypass rout].
+  pose proof (resp_mw_body maxm maxb s body []) as H. cbv zeta in H.
+  destruct (rw_send _) as [w1 ok]. cbn [fst]. rewrite H. reflexivity.
+Qed.
+
+(** Repaired code (59cbdb7): an informational header ahead of the final one is
+    passed straight on and the final status is kept. *)
+Lemma resp_mw_hints maxm maxb s body :
+  informational s = false ->
+  fst (resp_mw maxm maxb [HWriteHeader 103 false; HWriteHeader s false; HWrite body]) =
+    CWriteHeader 103 ::
+    (if body_too_large maxb body then [CError500]
+     else CWriteHeader s :: match body with [] => [] | _ => [CWrite body] end).
+Proof.
+  intros Hi. rewrite <- informational_is in Hi.
+  unfold resp_mw. cbn [fold_left]. unfold new_rw.
+  unfold rw_step at 3. cbn [is_informational N.leb N.eqb andb negb].
+  replace (is_informational 103) with true by reflexivity.
+  cbn [rbuf rstatus rheader_written rhijacked rbypass rout].
+  unfold rw_step at 2. rewrite Hi. cbn [rheader_written rbuf rhijacked rbypass rout].
+  pose proof (resp_mw_body maxm maxb s body [CWriteHeader 103]) as H. cbv zeta in H.
+  destruct (rw_send _) as [w1 ok]. cbn [fst]. rewrite H. reflexivity.
+Qed.
+
+(** Pinned code: the first header (103) was taken as the final one. *)
+Lemma resp_mw_pinned_hints maxm maxb s body :
+  resp_mw_pinned maxm maxb [HWriteHeader 103 false; HWriteHeader s false; HWrite body] =
+    if body_too_large maxb body then [CError500]
+    else CWriteHeader 103 :: match body with [] => [] | _ => [CWrite body] end.
+Proof.
+  unfold resp_mw_pinned. cbn [fold_left]. unfold new_rw.
+  cbn [rw_step_pinned rheader_written rbuf rhijacked rbypass rout rstatus].
+  pose proof (resp_mw_body maxm maxb 103 body []) as H. cbv zeta in H.
+  destruct (rw_send _) as [w1 ok]. rewrite H. reflexivity.
+Qed.
 
 (** Calls reaching the logging writer for a complete response of the target. *)
 Lemma serve_respond_ops c s body :
+  informational s = false ->
   flat_map wev_op (o_events (serve c (TBRespond s body))) =
     if c_buffer_resp c then
       if body_too_large (c_max_resp c) body then [OpWriteHeader 500; OpWrite 22 22]
       else OpWriteHeader s :: match body with [] => [] | _ => [OpWrite (lenN body) (lenN body)] end
     else [OpWriteHeader s; OpWrite (lenN body) (lenN body)].
 Proof.
+  intros Hi.
   unfold serve, reverse_proxy, target_events. cbn [panics proxy_hops proxy_slot].
   rewrite error_pages_none, app_nil_r. cbn [o_events].
   destruct (c_buffer_resp c); [|reflexivity]. cbn [negb].
-  rewrite resp_mw_one. destruct (body_too_large (c_max_resp c) body); [reflexivity|].
+  rewrite resp_mw_one by exact Hi. destruct (body_too_large (c_max_resp c) body); [reflexivity|].
   destruct body; reflexivity.
 Qed.
 
@@ -236,7 +286,8 @@ Definition ending_status (c : chain_cfg) (e : ending) : N :=
     if c_buffer_resp c && body_too_large (c_max_resp c) body then 500 else s
   | EProxied _ (TBFailBefore f) => classify f
   | EProxied _ (TBFailAfter s _ _) => if c_buffer_resp c then 200 else s
-  | EProxiedHints _ s _ => s
+  | EProxiedHints _ s body =>
+    if c_buffer_resp c && body_too_large (c_max_resp c) body then 500 else s
   | EReqTooLarge _ => 413 | EReqReadError _ => 500 | EUpgraded _ => 101
   end.
 
@@ -266,7 +317,7 @@ Qed.
 Lemma chain_status svc c rl e :
   (forall t s body, e = EProxied t (TBRespond s body) -> final_status s) ->
   (forall t s sent f, e = EProxied t (TBFailAfter s sent f) -> final_status s) ->
-  (forall t s body, e = EProxiedHints t s body -> final_status s /\ c_buffer_resp c = false) ->
+  (forall t s body, e = EProxiedHints t s body -> final_status s) ->
   let '(_, ops, _) := chain svc c rl e in
   lw_status (lw_run ops) = ending_status c e /\
   (* unless the handler was aborted before anything was passed on, this is what the client is told *)
@@ -283,7 +334,7 @@ Proof.
   - destruct (error_page_ops_status (c_custom c) (c_builtin c) 503 eq_refl) as (H1 & H2 & _). auto.
   - destruct b as [s body | f | s sent f].
     + specialize (Hs t s body eq_refl). unfold final_status in Hs.
-      rewrite serve_respond_ops.
+      rewrite serve_respond_ops by exact Hs.
       destruct (c_buffer_resp c); cbn [andb].
       * destruct (body_too_large (c_max_resp c) body); [cbn; auto|].
         destruct body; cbn [client_status]; rewrite Hs; cbn; auto.
@@ -297,24 +348,30 @@ Proof.
       rewrite serve_fail_after. cbn [o_events].
       split; [|intros Hne; exfalso; exact (Hne t s sent f eq_refl)].
       destruct (c_buffer_resp c); reflexivity.
-  - destruct (Hh t s0 body0 eq_refl) as [Hf Hb]. unfold final_status in Hf. rewrite Hb.
-    cbn [flat_map hop_wev wev_op app client_status]. cbn [informational]. rewrite Hf.
-    rewrite lw_run_status. cbn. auto.
+  - pose proof (Hh t s0 body0 eq_refl) as Hf. unfold final_status in Hf.
+    destruct (c_buffer_resp c); cbn [andb].
+    + rewrite resp_mw_hints by exact Hf.
+      destruct (body_too_large (c_max_resp c) body0).
+      * cbn. auto.
+      * destruct body0; cbn [flat_map cev_wev wev_op app client_status]; cbn [informational];
+          rewrite ?Hf; rewrite lw_run_status; cbn; auto.
+    + cbn [flat_map hop_wev wev_op app client_status]. cbn [informational]. rewrite Hf.
+      rewrite lw_run_status. cbn. auto.
   - cbn. auto.
   - cbn. auto.
   - cbn. auto.
 Qed.
 
-(** With response buffering the final status of a response preceded by an
-    informational one is lost: the record says 103, the client is told 200
-    (net/http's implicit header before the first body byte) — whatever the
+(** Under the PINNED buffered writer the final status of a response preceded
+    by an informational one was lost: the record said 103, the client was told
+    200 (net/http's implicit header before the first body byte) — whatever the
     target's status was. *)
-Lemma buffered_hints svc c rl t s body :
-  c_buffer_resp c = true -> body_too_large (c_max_resp c) body = false -> body <> [] ->
-  let '(_, ops, _) := chain svc c rl (EProxiedHints t s body) in
+Lemma buffered_hints_pinned maxm maxb s body :
+  body_too_large maxb body = false -> body <> [] ->
+  let ops := hints_ops_pinned maxm maxb s body in
   lw_status (lw_run ops) = 103 /\ client_status ops = 200.
 Proof.
-  intros Hb Hl Hne. cbn [chain]. rewrite Hb, resp_mw_two_headers, resp_mw_one, Hl.
+  intros Hl Hne. cbv zeta. unfold hints_ops_pinned. rewrite resp_mw_pinned_hints, Hl.
   destruct body as [|x body]; [congruence|]. cbn. auto.
 Qed.
 
